@@ -26,6 +26,21 @@ Definition ip_value (h : host) : Prop :=
 Lemma ip_value_args h : ip_value h <-> op_args_ok (C02_Reach.OSetIpHost h).
 Proof. destruct h; cbn; tauto. Qed.
 
+(* all the records at once *)
+Theorem host_model_ok idna : IdnaOK idna ->
+  HostRT (host_parse idna) host_parse_opaque host_display
+  /\ host_above (host_parse idna) host_parse_opaque host_display
+  /\ C05_Parser.HostOK (host_parse idna) host_parse_opaque host_display
+  /\ (forall h, ip_value h -> Forall ok_byte (host_display h) /\ host_disp_ok host_display h)
+  /\ (forall s h, host_parse idna s = Ok h \/ host_parse_opaque s = Ok h -> host_disp_ok host_display h).
+Proof.
+  intros OK. split; [exact (model_HostRT idna OK)|]. split; [exact (model_host_above idna OK)|].
+  split; [exact (model_HostOK_C05 idna OK)|]. split.
+  - intros h Hv. apply ip_value_args in Hv. split; [exact (model_IpOK_wf h Hv)|].
+    apply (model_host_disp_ok idna OK). right. right. exact Hv.
+  - intros s h [H|H]; apply (model_host_disp_ok idna OK); [left | right; left]; exists s; exact H.
+Qed.
+
 Section Inst.
 Variable dbg : bool.
 Variable idna : list N -> option (list N).
